@@ -39,6 +39,7 @@ SatP == [ p \in ( { <<d>> : d \in {"a", "ab"} } \cup { <<d1, d2>> : d1 \in {"a",
         @@ (<<".git">> :> D7) @@ (<<".git","b">> :> FileNode(644, 2, 1))
         @@ (<<".terraform">> :> D7) @@ (<<".terraform","b">> :> FileNode(644, 2, 1))
         @@ (<<".terraform","modules">> :> D7) @@ (<<".terraform","modules","b">> :> FileNode(644, 2, 1))
+        @@ (<<".terraform","modules",".git">> :> D7) @@ (<<".terraform","modules",".git","b">> :> FileNode(644, 2, 1))
 RuleTree == [ p \in { W(r) : r \in DOMAIN SatP } |-> SatP[SubSeq(p, 4, Len(p))] ]
             @@ (W(<<".terraformignore">>) :> FileNode(644, 2, RuleFileC)) @@ ArenaP
 SegPatsP == { <<"a">>, <<"b">>, <<"a","*">>, <<"*">>, <<"?">> }
